@@ -105,6 +105,7 @@ func init() {
 		partDepartureCauses(c, a)
 		partStepThrough(c, a, []string{"leave", "switch", "lastleave", "join", "compadd-vs-leave", "action-vs-leave"})
 		partStepPairs(c, a, [][2]string{{"leave", "leave2"}, {"leave", "join2"}, {"switch", "join2"}})
+		partDepartureScripts(c, a)
 		return a.finish(c)
 	}
 }
